@@ -40,6 +40,10 @@ def run(F, R):
     k5_status(F, R)
     k6_capacity(F, R)
     # K7: outstanding requests may complete in any order - necessary condition on descriptor recycling (C03.E6)
+    # K8: data part device-readable for writes / device-writable for reads depends on the descriptor flags being
+    # exactly extra|direction for every previous content of the slot (shared with C01.F1)
+    from .C01 import share_fn_rule
+    share_fn_rule(F, R, 'K8')
     from .C03 import e6_relink
     for _k, _v in roles.items():
         if _v == 'pop_used':
